@@ -507,21 +507,79 @@ theorem moved_characterisation (rec : Rec) (pops : List Pop) (old new : Level) (
     rfl
 
 
-theorem strip_idempotent (d : List DItem) : stripUnchanged (stripUnchanged d) = stripUnchanged d := by
-  induction d using stripUnchanged.induct with
-  | case1 => simp [stripUnchanged]
-  | case2 o row ch m rest ho ih => simp only [stripUnchanged, ho, if_true, ih]
-  | case3 o row ch m rest ho ihc ihr =>
-    have ho' : (o == Op.unchanged) = false := by simpa using ho
-    simp only [stripUnchanged, ho', Bool.false_eq_true, if_false, ihc, ihr]
+@[simp] theorem DItem.op_mk (o : Op) (r : String) (ch : List DItem) (m : PMatch) :
+    (DItem.mk o r ch m).op = o := rfl
+
+@[simp] theorem DItem.children_mk (o : Op) (r : String) (ch : List DItem) (m : PMatch) :
+    (DItem.mk o r ch m).children = ch := rfl
+
+theorem stripUnchanged_nil : stripUnchanged [] = [] := by
+  rw [stripUnchanged]
+
+theorem stripUnchanged_cons (i : DItem) (rest : List DItem) :
+    stripUnchanged (i :: rest) =
+      if i.op == .unchanged then stripUnchanged rest else stripItem i :: stripUnchanged rest := by
+  rw [stripUnchanged]
+
+theorem stripItem_mk (o : Op) (r : String) (ch : List DItem) (m : PMatch) :
+    stripItem (.mk o r ch m) = .mk o r (stripUnchanged ch) m := by
+  rw [stripItem]
+
+theorem stripItem_op (i : DItem) : (stripItem i).op = i.op := by
+  obtain ⟨o, r, ch, m⟩ := i
+  rw [stripItem_mk]; rfl
+
+theorem markUnchanged_nil : markUnchanged [] = [] := by
+  rw [markUnchanged]
+
+theorem markUnchanged_cons (i : DItem) (rest : List DItem) :
+    markUnchanged (i :: rest) = markItem i :: markUnchanged rest := by
+  rw [markUnchanged]
+
+theorem markItem_mk (o : Op) (r : String) (ch : List DItem) (m : PMatch) :
+    markItem (.mk o r ch m) =
+      if o == .affected then
+        .mk (if (markUnchanged ch).all (·.op == .unchanged) then .unchanged else .affected) r
+          (markUnchanged ch) m
+      else .mk o r ch m := by
+  rw [markItem]
+
+theorem allAffected_nil : allAffected [] = true := by
+  rw [allAffected]
+
+theorem allAffected_cons (i : DItem) (rest : List DItem) :
+    allAffected (i :: rest) = (allAffectedItem i && allAffected rest) := by
+  rw [allAffected]
+
+theorem allAffectedItem_mk (o : Op) (r : String) (ch : List DItem) (m : PMatch) :
+    allAffectedItem (.mk o r ch m) = (o == .affected && allAffected ch) := by
+  rw [allAffectedItem]
+
+mutual
+  theorem strip_idempotent_list : ∀ (d : List DItem), stripUnchanged (stripUnchanged d) = stripUnchanged d
+    | [] => by rw [stripUnchanged_nil, stripUnchanged_nil]
+    | i :: rest => by
+      rw [stripUnchanged_cons]
+      split
+      · exact strip_idempotent_list rest
+      · rename_i ho
+        rw [stripUnchanged_cons, stripItem_op, if_neg ho, strip_idempotent_item i,
+          strip_idempotent_list rest]
+  theorem strip_idempotent_item : ∀ (i : DItem), stripItem (stripItem i) = stripItem i
+    | .mk o r ch m => by
+      rw [stripItem_mk, stripItem_mk, strip_idempotent_list ch]
+end
+
+theorem strip_idempotent (d : List DItem) : stripUnchanged (stripUnchanged d) = stripUnchanged d :=
+  strip_idempotent_list d
 
 theorem allAffected_iff (l : List DItem) :
     allAffected l = true ↔ ∀ i ∈ l, i.op = .affected ∧ allAffected i.children = true := by
   induction l with
-  | nil => simp [allAffected]
+  | nil => simp [allAffected_nil]
   | cons i rest ih =>
     obtain ⟨o, r, ch, m⟩ := i
-    simp [allAffected, ih, DItem.op, DItem.children, and_assoc]
+    simp [allAffected_cons, allAffectedItem_mk, ih, and_assoc]
 
 theorem allAffected_append (a b : List DItem) (ha : allAffected a = true) (hb : allAffected b = true) :
     allAffected (a ++ b) = true := by
@@ -531,25 +589,35 @@ theorem allAffected_append (a b : List DItem) (ha : allAffected a = true) (hb : 
   · exact ha i hi
   · exact hb i hi
 
+mutual
+  theorem markUnchanged_allAffected_list : ∀ (d : List DItem), allAffected d = true →
+      (markUnchanged d).all (·.op == .unchanged) = true
+    | [], _ => by simp [markUnchanged_nil]
+    | i :: rest, h => by
+      rw [allAffected_cons, Bool.and_eq_true] at h
+      rw [markUnchanged_cons, List.all_cons, markUnchanged_allAffected_list rest h.2, Bool.and_true,
+        beq_iff_eq]
+      exact markUnchanged_allAffected_item i h.1
+  theorem markUnchanged_allAffected_item : ∀ (i : DItem), allAffectedItem i = true →
+      (markItem i).op = .unchanged
+    | .mk o r ch m, h => by
+      rw [allAffectedItem_mk, Bool.and_eq_true] at h
+      rw [markItem_mk, if_pos h.1, markUnchanged_allAffected_list ch h.2]
+      rfl
+end
+
 theorem markUnchanged_allAffected (d : List DItem) (h : allAffected d = true) :
-    (markUnchanged d).all (·.op == .unchanged) = true := by
-  induction d using allAffected.induct with
-  | case1 => simp [markUnchanged]
-  | case2 o row ch m rest ihc ihr =>
-    simp only [allAffected, Bool.and_eq_true, beq_iff_eq] at h
-    obtain ⟨⟨ho, hc⟩, hr⟩ := h
-    subst ho
-    simp only [markUnchanged, beq_self_eq_true, if_true, ihc hc, List.all_cons, ihr hr]
-    simp [DItem.op]
+    (markUnchanged d).all (·.op == .unchanged) = true :=
+  markUnchanged_allAffected_list d h
 
 theorem strip_of_all_unchanged (l : List DItem) (h : l.all (·.op == .unchanged) = true) :
     stripUnchanged l = [] := by
   induction l with
-  | nil => simp [stripUnchanged]
+  | nil => exact stripUnchanged_nil
   | cons i rest ih =>
-    obtain ⟨o, r, ch, m⟩ := i
-    simp only [List.all_cons, DItem.op, Bool.and_eq_true] at h
-    simp [stripUnchanged, h.1, ih h.2]
+    simp only [List.all_cons, Bool.and_eq_true] at h
+    rw [stripUnchanged_cons, if_pos h.1]
+    exact ih h.2
 
 
 /-! ### self diff -/
